@@ -80,6 +80,27 @@ def always_returns(stmt):
     return False
 
 
+def _canon(kind, cond):
+    """('not', 'p == NULL') and ('if', 'p != NULL') are one fact: `if (p == NULL) return;` guards what follows like `if (p != NULL) {..}`"""
+    if kind == "not":
+        for a, b in ((" == ", " != "), (" != ", " == ")):
+            if a in cond and cond.count(a) == 1 and " && " not in cond and " || " not in cond:
+                return ("if", cond.replace(a, b))
+    return (kind, cond)
+
+
+def not_taken(fs, prefix):
+    """the facts say that `prefix(..) == 1` (the 'skip' answer) does not hold here, however the test was written"""
+    for k, c in fs:
+        if not c.startswith(prefix):
+            continue
+        if k == "not" and (c.endswith(" == 1") or c.endswith(")")):
+            return True
+        if k == "if" and (c.endswith(" != 1") or c.endswith(" == 0")):
+            return True
+    return False
+
+
 def statements_with_facts(fn):
     """[(stmt, facts)] for every statement of a goto-free function; facts = list of ('if'|'else'|'after-return-if', condition text)"""
     out = []
@@ -91,7 +112,7 @@ def statements_with_facts(fn):
             for s in stmt.get("inner", []):
                 rec(s, local)
                 if s.get("kind") == "IfStmt" and not s.get("hasElse") and always_returns(s["inner"][1]):
-                    local = local + [("not", expr_str(s["inner"][0]))]
+                    local = local + [_canon("not", expr_str(s["inner"][0]))]
             return
         if k == "IfStmt":
             kids = stmt["inner"]
@@ -99,7 +120,7 @@ def statements_with_facts(fn):
             out.append((stmt, facts))
             rec(kids[1], facts + [("if", cond)])
             if stmt.get("hasElse") and len(kids) > 2:
-                rec(kids[2], facts + [("not", cond)])
+                rec(kids[2], facts + [_canon("not", cond)])
             return
         out.append((stmt, facts))
     b = body_of(fn)
@@ -121,6 +142,13 @@ def word_of(n, env):
         callee = strip(n["inner"][0]).get("ref")
         if callee in HELPER_WORDS:
             return (callee, "whole")
+        # a helper of the program that returns such a word (`get_current_uid()`): classified by its single return expression
+        hf = (env.get("__fns__") or {}).get(callee)
+        if hf is not None and len(n["inner"]) == 1:
+            rets = [x for x in walk(hf) if x.get("kind") == "ReturnStmt" and x.get("inner")]
+            if len(rets) == 1:
+                sub = {"__fns__": {k: v for k, v in env["__fns__"].items() if k != callee}}
+                return word_of(rets[0]["inner"][0], sub)
         return None
     if k == "DeclRefExpr":
         return env.get(n.get("ref"))
@@ -143,8 +171,11 @@ def word_of(n, env):
     return None
 
 
+FNS = {}
+
+
 def var_env(fn):
-    env = {}
+    env = {"__fns__": FNS}
     for n in walk(fn):
         if n.get("kind") == "VarDecl" and n.get("inner"):
             w = word_of(n["inner"][-1], env)
@@ -179,6 +210,8 @@ def run(F, R, tier):
         R.fail("C06.R1", "C06.R1:anchor-missing:ebpf_cgroup.c", "-", "anchor-missing=linux-ebpf/ebpf_cgroup.c (no Engine B facts)")
         return
     fns = E["functions"]
+    FNS.clear()
+    FNS.update(fns)
     for f in fns:
         R.touched("ebpf_cgroup.c::" + f)
     src = "linux-ebpf/ebpf_cgroup.c"
@@ -278,7 +311,7 @@ def run(F, R, tier):
         for name, n, facts in writes:
             fs = set(facts)
             pv = [v for v in pol if ("if", "%s != NULL" % v) in fs]
-            skipped_ok = ("not", "update_local_map_entry(ctx) == 1") in fs
+            skipped_ok = not_taken(fs, "update_local_map_entry(")
             src_ok = bool(pv) and expr_str(n["inner"][1]).startswith(pv[0] + "->")
             R.check(bool(pv) and skipped_ok and src_ok, "C06.R2", "C06.R2:authorize_v4:rewrite:%s" % name, "%s:%s" % (src, n.get("line")),
                     "ctx->%s is rewritten only under `policy != NULL` (policy_map hit), after the not-skipped outcome of update_local_map_entry, "
@@ -295,15 +328,15 @@ def run(F, R, tier):
     if ul:
         sw = statements_with_facts(ul)
         upd = [(s, f) for s, f in sw if any(n.get("kind") == "CallExpr" and strip(n["inner"][0]).get("ref") == "bpf_map_update_elem" and "local_map" in expr_str(n["inner"][1]) for n in walk(s))]
-        ok = len(upd) == 1 and any(f[0] == "not" and f[1].startswith("check_skip_process_map_entry(") for f in upd[0][1])
+        ok = len(upd) == 1 and not_taken(upd[0][1], "check_skip_process_map_entry(")
         R.check(ok, "C06.R2", "C06.R2:update_local_map_entry:not-skipped", src,
                 "the original destination is recorded in local_map only after the skip-process check returned 'not skipped'")
         rec = {}
         for n in walk(ul):
             if n.get("kind") == "BinaryOperator" and n.get("opcode") == "=":
                 lhs = expr_str(n["inner"][0])
-                if lhs.startswith("entry."):
-                    rec[lhs[6:]] = expr_str(n["inner"][1])
+                if "." in lhs and not lhs.startswith("ctx") and "->" not in lhs:
+                    rec[lhs.split(".", 1)[1]] = expr_str(n["inner"][1])
         R.check(rec.get("destination_ipv4") == "ctx->user_ip4" and rec.get("destination_port") == "ctx->user_port", "C06.R2",
                 "C06.R2:update_local_map_entry:records-original-destination", src,
                 "local entry records ctx->user_ip4 / ctx->user_port (called before the rewrite: the original destination)", "local entry: %s" % rec)
@@ -328,7 +361,7 @@ def run(F, R, tier):
                     continue
                 n_aud += 1
                 fs = set(facts)
-                not_skipped = any(f[0] == "not" and f[1].startswith("check_skip_process_map_entry(") for f in fs)
+                not_skipped = not_taken(fs, "check_skip_process_map_entry(")
                 hit = any(("if", "%s != NULL" % v) in fs for v in list(loc) + list(pol))
                 R.check(not_skipped and hit, "C06.R2", R.key("C06.R2", "trace_v4", "audit-write"), "%s:%s" % (src, n.get("line")),
                         "audit record written only for a non-skipped process under a local_map / policy_map hit",
@@ -337,7 +370,7 @@ def run(F, R, tier):
                     R.check(expr_str(n["inner"][1]) == "skc.skc_num", "C06.R2", "C06.R2:trace_v4:key-port-helper", "%s:%s" % (src, n.get("line")),
                             "the audit key's source port is skc.skc_num (local port, host order)")
         R.floor("C06.R2", n_aud, 2, "audit_map writes reachable in trace_v4")
-        keyp = [expr_str(n["inner"][1]) for n in walk(tv) if n.get("kind") == "BinaryOperator" and n.get("opcode") == "=" and expr_str(n["inner"][0]) == "key.source_port"]
+        keyp = [expr_str(n["inner"][1]) for n in walk(tv) if n.get("kind") == "BinaryOperator" and n.get("opcode") == "=" and expr_str(n["inner"][0]).endswith(".source_port")]
         R.check(keyp == ["skc.skc_num"], "C06.R2", "C06.R2:trace_v4:key-port", src, "key.source_port = skc.skc_num", "key.source_port = %s" % keyp)
     ua = fns.get("update_audit_map_entry_sk")
     if ua:
@@ -345,10 +378,10 @@ def run(F, R, tier):
         for n in walk(ua):
             if n.get("kind") == "BinaryOperator" and n.get("opcode") == "=":
                 lhs = expr_str(n["inner"][0])
-                if lhs.startswith("entry."):
-                    copies[lhs[6:]] = expr_str(n["inner"][1])
+                if "." in lhs and "->" not in lhs:
+                    copies[lhs.split(".", 1)[1]] = expr_str(n["inner"][1])
         exp = {f: "local_entry->" + f for f in ("process_id", "logon_id", "is_root", "destination_ipv4", "destination_port")}
-        R.check(copies == exp, "C06.R2", "C06.R2:update_audit_map_entry_sk:field-copy", src,
+        R.check(all(copies.get(f_) == v_ for f_, v_ in exp.items()), "C06.R2", "C06.R2:update_audit_map_entry_sk:field-copy", src,
                 "the audit entry copies each field from the same-named field of the local entry", "copies: %s" % copies)
 
     # ------------------------------------------------------------------ R6 hand-over slot is per thread
@@ -525,6 +558,15 @@ def run(F, R, tier):
                 for s in blk["stmts"]:
                     if s["k"] != "assign":
                         continue
+                    if conv == "to_array" and s["rv"]["k"] == "agg" and s["rv"]["ak"] == "array" and s["lhs"]["l"] == 0 or \
+                            (conv == "to_array" and s["rv"]["k"] == "agg" and s["rv"]["ak"] == "array" and
+                             any(o[0] == "agg" for o in B.origins({"l": 0, "p": []}))):
+                        # array literal: [self.a, self.b, ..] - element i is word i
+                        for i_, op in enumerate(s["rv"]["ops"]):
+                            src_f = [o[2][0] for o in B.origins(op) if o[0] == "param" and o[2]]
+                            if src_f:
+                                got[i_] = src_f[0]
+                        continue
                     if conv == "to_array":
                         idx = [e for e in s["lhs"]["p"] if isinstance(e, dict) and "i" in e]
                         if idx and s["rv"]["k"] == "use":
@@ -537,6 +579,12 @@ def run(F, R, tier):
                             for fname_, op in zip(s["rv"]["fields"], s["rv"]["ops"]):
                                 if op["k"] in ("copy", "move"):
                                     d = B.single_def(op["p"]["l"])
+                                    hops_ = 0
+                                    # through plain copies of locals (`let [a, b] = array; S { a, b }` binds, then moves)
+                                    while d and d[2] == "assign" and d[3]["rv"]["k"] == "use" and d[3]["rv"]["o"].get("k") in ("copy", "move") \
+                                            and not d[3]["rv"]["o"]["p"]["p"] and hops_ < 4:
+                                        hops_ += 1
+                                        d = B.single_def(d[3]["rv"]["o"]["p"]["l"])
                                     if d and d[2] == "assign" and d[3]["rv"]["k"] == "use":
                                         pl = d[3]["rv"]["o"].get("p", {})
                                         idx = [e for e in pl.get("p", []) if isinstance(e, dict) and "i" in e]
@@ -544,6 +592,10 @@ def run(F, R, tier):
                                             iv = [o[2] for o in B.origins({"k": "copy", "p": {"l": idx[0]["i"], "p": []}}) if o[0] == "const"]
                                             if iv:
                                                 got[iv[0]] = fname_
+                                        # destructuring `let [a, b] = array;`: constant-index projections
+                                        cidx = [e for e in pl.get("p", []) if isinstance(e, dict) and "ci" in e and not e.get("from_end")]
+                                        if cidx:
+                                            got[cidx[0]["ci"]] = fname_
             expw = {w: n for w, n in words}
             if rname == "_destination_entry":
                 expw = {4: "destination_port", 5: "protocol"}
@@ -701,6 +753,12 @@ def byte_order(F, R, E, fns, src):
         via = set()
         for blk in B.blocks:
             for s in blk["stmts"]:
+                if s["k"] == "assign" and s["rv"]["k"] == "agg" and "destination_port" in (s["rv"].get("fields") or []):
+                    # struct literal spelling: _destination_entry { destination_port: port.to_be() as u32, .. }
+                    op_ = s["rv"]["ops"][s["rv"]["fields"].index("destination_port")]
+                    via |= {q.base_name(v).rsplit("::", 1)[-1] for v in B.via(op_)}
+                    if any(o[0] == "call" and q.ends(o[1], "to_be", "swap_bytes") for o in B.origins(op_)):
+                        via.add("to_be")
                 if s["k"] == "assign" and s["lhs"]["p"] and "destination_port" in mir.field_names(s["lhs"]):
                     via |= {q.base_name(v).rsplit("::", 1)[-1] for v in B.via(s["rv"].get("o", {"k": "const"}))}
                     org = B.origins(s["rv"].get("o", {"k": "const"}))
